@@ -165,19 +165,31 @@ def main(tier: str) -> int:
              (np.array([0.0, -10.0]), np.array([1e-3, 10.0]), 2), (2.0, 2.0, 2)]
     objs = {"sum_abs": lambda x: np.sum(np.abs(x), axis=1), "sum": lambda x: np.sum(x, axis=1), "neg_sum": lambda x: -np.sum(x, axis=1)}
 
-    def run(cls, box, oname, F, CR, strategy, seed, elit):
+    def run(cls, box, oname, F, CR, strategy, seed, elit, g2p=False):
         left, right, nv = box
         L = np.full(nv, left) if np.isscalar(left) else left
         Rr = np.full(nv, right) if np.isscalar(right) else right
         viol = []
         recs = {"trials": []}
 
-        def fit(x):
+        def inbox(x, what):
             x = np.asarray(x)
             if x.shape[1] != nv or np.any(x < L - 0) or np.any(x > Rr + 0):
-                viol.append(("evaluated", x[np.any((x < L) | (x > Rr), axis=1)][:2].tolist() if x.shape[1] == nv else list(x.shape)))
-            return objs[oname](x)
+                viol.append((what, x[np.any((x < L) | (x > Rr), axis=1)][:2].tolist() if x.shape[1] == nv else list(x.shape)))
+
+        def fit(x):
+            if not g2p:
+                inbox(x, "evaluated")
+            return objs[oname](np.asarray(x))
+
+        def to_ph(g):
+            # a genotype_to_phenotype that leaves the box (same number of coordinates): the candidates are the genotypes
+            inbox(g, "candidate")
+            return np.asarray(g, dtype=np.float64) * 50.0 + 100.0
         kw = dict(fitness_function=fit, iters=12, pop_size=10, left_border=left, right_border=right, num_variables=nv, random_state=seed, elitism=elit, keep_history=True)
+        if g2p:
+            kw["genotype_to_phenotype"] = to_ph
+        kw["on_generation"] = lambda oo: inbox(oo._population_g_i, "live population")
         if cls is DifferentialEvolution:
             kw.update(F=F, CR=CR, mutation=strategy)
         elif cls is jDE:
@@ -224,11 +236,51 @@ def main(tier: str) -> int:
                         if viol:
                             chk.fail("a candidate handed to the fitness function (or a population member) lies outside the box",
                                      {**d, "first": str(viol[0])[:200], "count": len(viol)}, {"fn": "box", "optimizer": cls.__name__})
+                        if bi == 0 and (F, CR) in ((0.5, 0.5), (None, None)):
+                            # the same with a genotype_to_phenotype whose images lie outside the box, elitism on
+                            run_id += 1
+                            viol2, _ = run(cls, box, oname, F, CR, strategy, chk.seed * 1000 + run_id, elit=True, g2p=True)
+                            chk.count("run_g2p_" + cls.__name__)
+                            chk.case(("run_g2p", cls.__name__, bi, oname, strategy))
+                            if viol2:
+                                chk.fail("a candidate handed to genotype_to_phenotype (or a population member) lies outside the box",
+                                         {**d, "genotype_to_phenotype": "50*g+100", "elitism": True, "first": str(viol2[0])[:200], "count": len(viol2)},
+                                         {"fn": "box", "optimizer": cls.__name__, "clause": "g2p"})
                         for ind, mut, t in recs["trials"][:400]:
                             if len(t) != box[2] or any(t[i] not in (ind[i], mut[i]) for i in range(len(t))) or not any(t[i] == mut[i] for i in range(len(t))):
                                 chk.fail("a trial of a live run does not have the binomial structure", {**d, "parent": ind.tolist(), "donor": mut.tolist(), "trial": t.tolist()},
                                          {"fn": "binomial", "clause": "structure", "optimizer": cls.__name__})
                                 break
+
+    # ---- SHADE: the p-best candidates handed to the donor are among the best ceil(p*pop_size) of the CURRENT population,
+    # in every generation, including generations in which the best-so-far did not improve (multimodal objective, pop_size >= 40)
+    def rastrigin(x):
+        x = np.asarray(x, dtype=np.float64)
+        return -(10.0 * x.shape[1] + np.sum(x * x - 10.0 * np.cos(2 * np.pi * x), axis=1))
+    for pop, sd in ((60, 0), (40, 1)):
+        o = SHADE(fitness_function=rastrigin, iters=12, pop_size=pop, left_border=-5.12, right_border=5.12, num_variables=4, random_state=chk.seed + sd, keep_history=True)
+        saved_pb = SHM.current_to_pbest_1_archive_p_min
+        stale = []
+
+        def wpb(ind, popg, pbest, F, arch, _o=saved_pb, _oo=o, _pop=pop):
+            k = max(1, int(0.05 * _pop))
+            fitn = np.asarray(_oo._fitness_i, dtype=np.float64)
+            kth = np.sort(fitn)[-k]
+            if len(stale) == 0 and (len(pbest) != k or any(fitn[int(j)] < kth for j in pbest)):
+                stale.append({"generation": len(_oo.get_stats()["fitness"]) + 1, "p_best_candidates": [int(j) for j in pbest],
+                              "their_fitness": [float(fitn[int(j)]) for j in pbest], "kth_best_fitness": float(kth),
+                              "generations_without_improvement": int(_oo._thefittest._no_update_counter)})
+            return _o(ind, popg, pbest, F, arch)
+        SHM.current_to_pbest_1_archive_p_min = wpb
+        try:
+            o.fit()
+        finally:
+            SHM.current_to_pbest_1_archive_p_min = saved_pb
+        chk.count("shade_pbest")
+        chk.case(("shade_pbest", pop, sd))
+        if stale:
+            chk.fail("a SHADE donor is built from a member that is not among the p-best of the current population",
+                     {"optimizer": "SHADE", "pop_size": pop, "objective": "rastrigin", **stale[0]}, {"fn": "SHADE", "clause": "pbest_current"})
 
     # ---- jDE: the F / CR that scale each donor are THIS generation's self-adapted values, and an
     # accepted individual carries exactly the parameters that produced its trial
